@@ -143,3 +143,565 @@ Proof.
     split. { exists (k + 1). split; [lia | reflexivity]. }
     destruct (Z.log2_spec c) as [_ Hhi]; [lia|]. fold k in Hhi. replace (Z.succ k) with (k + 1) in Hhi by lia. lia.
 Qed.
+
+(* ---------------------------------------------------------------------- *)
+(* the invariant (DESIGN.md Appendix A.3, with the relation between the     *)
+(* two cursors corrected: free_index = alloc_index - |live|  (mod 2^32))    *)
+
+Definition slot_used (sl : list slot) (sid : Z) (b : bool) : Prop :=
+  exists x, zget sl sid = Some x /\ in_used x = b.
+
+Definition nfree (s : pslot) : Z := pcap s - zlen (live s).
+
+(* the ring segment [alloc_index, alloc_index + nfree) of pp_slots *)
+Definition seg_of (ppl : list Z) (a c : Z) (n : nat) : list Z :=
+  map (fun j => znth ppl ((a + Z.of_nat j) mod c)) (seq 0 n).
+Definition seg (s : pslot) : list Z := seg_of (pp s) (alloc_index s) (pcap s) (Z.to_nat (nfree s)).
+
+Record ps_inv (s : pslot) : Prop := {
+  inv_cap : is_pow2_cap (pcap s);
+  inv_len_slots : zlen (slots s) = pcap s;
+  inv_len_pp : zlen (pp s) = pcap s;
+  inv_ai : 0 <= alloc_index s < two32;
+  inv_fi : free_index s = u32 (alloc_index s - zlen (live s));
+  inv_nlive : zlen (live s) <= pcap s;
+  inv_live_nodup : NoDup (live s);
+  inv_live_used : forall sid, In sid (live s) <-> slot_used (slots s) sid true;
+  inv_seg_nodup : NoDup (seg s);
+  inv_seg_free : forall sid, In sid (seg s) <-> slot_used (slots s) sid false;
+  inv_pp_range : forall i, 0 <= i < pcap s -> 0 <= znth (pp s) i < pcap s
+}.
+
+Lemma slot_used_zset_eq : forall sl sid x b, 0 <= sid < zlen sl ->
+  (slot_used (zset sl sid x) sid b <-> in_used x = b).
+Proof.
+  intros. unfold slot_used. rewrite zget_zset_eq by auto. split.
+  - intros (y & E & U). now inversion E; subst.
+  - intros. eauto.
+Qed.
+
+Lemma slot_used_zset_neq : forall sl sid j x b, sid <> j ->
+  (slot_used (zset sl sid x) j b <-> slot_used sl j b).
+Proof. intros. unfold slot_used. now rewrite zget_zset_neq by auto. Qed.
+
+Lemma slot_used_excl : forall sl sid, slot_used sl sid true -> slot_used sl sid false -> False.
+Proof. intros sl sid (x & E & U) (y & E' & U'). rewrite E in E'. inversion E'; subst. congruence. Qed.
+
+Lemma slot_used_range : forall sl sid b, slot_used sl sid b -> 0 <= sid < zlen sl.
+Proof. intros sl sid b (x & E & _). eapply zget_range; eauto. Qed.
+
+Lemma ring_u32_add : forall c x j, is_pow2_cap c -> (u32 x + j) mod c = (x + j) mod c.
+Proof.
+  intros. rewrite Zplus_mod. rewrite mod_u32_mod by auto. now rewrite <- Zplus_mod.
+Qed.
+
+Lemma seg_of_S : forall ppl a c n,
+  seg_of ppl a c (S n) = znth ppl (a mod c) :: seg_of ppl (a + 1) c n.
+Proof.
+  intros. unfold seg_of. simpl seq. simpl map. f_equal.
+  - f_equal. f_equal. lia.
+  - rewrite <- seq_shift. rewrite map_map. apply map_ext. intros j. f_equal. f_equal. lia.
+Qed.
+
+Lemma seg_of_snoc : forall ppl a c n,
+  seg_of ppl a c (S n) = seg_of ppl a c n ++ [znth ppl ((a + Z.of_nat n) mod c)].
+Proof. intros. unfold seg_of. rewrite seq_S. rewrite map_app. reflexivity. Qed.
+
+Lemma seg_of_u32 : forall ppl a c n, is_pow2_cap c -> seg_of ppl (u32 a) c n = seg_of ppl a c n.
+Proof. intros. unfold seg_of. apply map_ext. intros. now rewrite ring_u32_add. Qed.
+
+Lemma seg_of_zset_other : forall ppl a c n p x, 0 < c -> Z.of_nat n < c -> 0 <= p ->
+  p = (a + Z.of_nat n) mod c ->
+  seg_of (zset ppl p x) a c n = seg_of ppl a c n.
+Proof.
+  intros. unfold seg_of. apply map_ext_in. intros j Hj. apply in_seq in Hj.
+  apply znth_zset_neq. subst p. intro E.
+  apply ring_pos_inj in E; lia.
+Qed.
+
+Lemma zlen_app1 : forall A (l : list A) x, zlen (l ++ [x]) = zlen l + 1.
+Proof. unfold zlen; intros. rewrite app_length. simpl. lia. Qed.
+
+(* ---------------------------------------------------------------------- *)
+(* insert                                                                  *)
+
+Lemma seg_head : forall s, ps_inv s -> zlen (live s) < pcap s ->
+  seg s = znth (pp s) (alloc_index s mod pcap s) ::
+          seg_of (pp s) (alloc_index s + 1) (pcap s) (Z.to_nat (nfree s - 1)).
+Proof.
+  intros s I Hlt. unfold seg. pose proof (zlen_nonneg _ (live s)).
+  replace (Z.to_nat (nfree s)) with (S (Z.to_nat (nfree s - 1))) by (unfold nfree; lia).
+  apply seg_of_S.
+Qed.
+
+Lemma ps_insert_spec : forall s d, ps_inv s ->
+  (zlen (live s) = pcap s /\ ps_insert s d = Some (s, (PFull, -1))) \/
+  (zlen (live s) < pcap s /\ exists s' sid,
+      ps_insert s d = Some (s', (POk, sid)) /\ ps_inv s' /\
+      0 <= sid < pcap s /\ ~ In sid (live s) /\ live s' = live s ++ [sid] /\
+      slots s' = zset (slots s) sid {| in_used := true; sdata := d |} /\ pcap s' = pcap s).
+Proof.
+  intros s d I. pose proof I as I0. destruct I.
+  pose proof (pow2_cap_pos _ inv_cap0) as Hc.
+  pose proof (zlen_nonneg _ (live s)) as Hl0.
+  unfold ps_insert. rewrite ring_idx_mod by (auto; lia).
+  set (ai := alloc_index s mod pcap s).
+  assert (Hai : 0 <= ai < pcap s) by (apply Z.mod_pos_bound; lia).
+  destruct (zget_in_range _ (pp s) ai) as [sid Hsid]; [lia|]. rewrite Hsid.
+  assert (Esid : sid = znth (pp s) ai) by (symmetry; now apply zget_nth).
+  assert (Rsid : 0 <= sid < pcap s) by (rewrite Esid; now apply inv_pp_range0).
+  destruct (zget_in_range _ (slots s) sid) as [sl Hsl]; [lia|]. rewrite Hsl.
+  destruct (in_used sl) eqn:U.
+  - (* refused: then every slot is in use *)
+    left. split; auto.
+    destruct (Z_lt_le_dec (zlen (live s)) (pcap s)); [|lia]. exfalso.
+    pose proof (seg_head s I0 l) as SH. fold ai in SH. rewrite <- Esid in SH.
+    assert (In sid (seg s)) by (rewrite SH; now left).
+    apply inv_seg_free0 in H. eapply slot_used_excl; eauto. exists sl; auto.
+  - right.
+    assert (Hlt : zlen (live s) < pcap s).
+    { destruct (Z_lt_le_dec (zlen (live s)) (pcap s)); auto. exfalso.
+      assert (In sid (seg s)) by (apply inv_seg_free0; exists sl; auto).
+      unfold seg in H. replace (Z.to_nat (nfree s)) with O in H by (unfold nfree; lia). exact H. }
+    split; auto. eexists. exists sid. split; [reflexivity|].
+    pose proof (seg_head s I0 Hlt) as SH. fold ai in SH. rewrite <- Esid in SH.
+    assert (Hnl : ~ In sid (live s)).
+    { intro. apply inv_live_used0 in H. eapply slot_used_excl; eauto. exists sl; auto. }
+    rewrite SH in inv_seg_nodup0. apply NoDup_cons_iff in inv_seg_nodup0 as [Hnot Hnd].
+    split; [|split; [lia|split; [auto|split; [reflexivity|split; reflexivity]]]].
+    constructor; cbn [slots pp pcap alloc_index free_index live]; auto.
+    + now rewrite zset_zlen.
+    + apply u32_range.
+    + rewrite zlen_app1. rewrite u32_sub_idem. rewrite inv_fi0. f_equal. lia.
+    + rewrite zlen_app1. lia.
+    + apply NoDup_snoc; auto.
+    + intros x. rewrite in_app_iff. simpl. destruct (Z.eq_dec sid x).
+      * subst x. rewrite slot_used_zset_eq by lia. simpl. tauto.
+      * rewrite slot_used_zset_neq by auto. rewrite <- inv_live_used0. tauto.
+    + unfold seg, nfree. cbn [slots pp pcap alloc_index free_index live].
+      rewrite zlen_app1. rewrite seg_of_u32 by auto.
+      replace (pcap s - (zlen (live s) + 1)) with (nfree s - 1) by (unfold nfree; lia). exact Hnd.
+    + intros x. unfold seg, nfree. cbn [slots pp pcap alloc_index free_index live].
+      rewrite zlen_app1. rewrite seg_of_u32 by auto.
+      replace (pcap s - (zlen (live s) + 1)) with (nfree s - 1) by (unfold nfree; lia).
+      destruct (Z.eq_dec sid x).
+      * subst x. rewrite slot_used_zset_eq by lia. simpl. split; [contradiction | discriminate].
+      * rewrite slot_used_zset_neq by auto. rewrite <- inv_seg_free0. rewrite SH. simpl. tauto.
+Qed.
+
+(* ---------------------------------------------------------------------- *)
+(* remove                                                                  *)
+
+Lemma ps_remove_spec : forall s idx, ps_inv s -> 0 <= idx ->
+  (pcap s <= idx /\ ps_remove s idx = Some (s, PRange)) \/
+  (idx < pcap s /\ ~ In idx (live s) /\ ps_remove s idx = Some (s, PDup)) \/
+  (idx < pcap s /\ In idx (live s) /\ exists s',
+      ps_remove s idx = Some (s', POk) /\ ps_inv s' /\
+      live s' = remove_z idx (live s) /\ slots s' = zset (slots s) idx free_slot /\ pcap s' = pcap s).
+Proof.
+  intros s idx I Hidx. pose proof I as I0. destruct I.
+  pose proof (pow2_cap_pos _ inv_cap0) as Hc.
+  pose proof (zlen_nonneg _ (live s)) as Hl0.
+  unfold ps_remove. destruct (idx >=? pcap s) eqn:R.
+  { left. split; [lia | reflexivity]. }
+  right.
+  destruct (zget_in_range _ (slots s) idx) as [sl Hsl]; [lia|]. rewrite Hsl.
+  destruct (in_used sl) eqn:U; cbn [negb].
+  2:{ left. split; [lia|]. split; [|reflexivity]. intro H. apply inv_live_used0 in H.
+      eapply slot_used_excl; eauto. exists sl; auto. }
+  right. assert (Hin : In idx (live s)) by (apply inv_live_used0; exists sl; auto).
+  split; [lia|]. split; auto.
+  assert (Hn1 : 1 <= zlen (live s)).
+  { unfold zlen. destruct (live s); [contradiction | simpl; lia]. }
+  pose proof (u32_range (alloc_index s - zlen (live s))) as Hfr. rewrite <- inv_fi0 in Hfr.
+  rewrite ring_idx_mod by (auto; lia).
+  set (F := nfree s). assert (HF : 0 <= F < pcap s) by (unfold F, nfree; lia).
+  assert (Efi : free_index s mod pcap s = (alloc_index s + F) mod pcap s).
+  { rewrite inv_fi0. rewrite mod_u32_mod by auto. unfold F, nfree.
+    replace (alloc_index s + (pcap s - zlen (live s))) with (alloc_index s - zlen (live s) + 1 * pcap s) by lia.
+    now rewrite Z_mod_plus_full. }
+  set (fi := free_index s mod pcap s) in *.
+  assert (Hfi : 0 <= fi < pcap s) by (apply Z.mod_pos_bound; lia).
+  destruct (zget_in_range _ (pp s) fi) as [old Hold]; [lia|]. rewrite Hold.
+  eexists. split; [reflexivity|].
+  split; [|split; [reflexivity | split; reflexivity]].
+  assert (Hlen : zlen (remove_z idx (live s)) = zlen (live s) - 1).
+  { unfold zlen. pose proof (remove_z_length idx (live s) inv_live_nodup0 Hin). lia. }
+  assert (Hseg : seg_of (zset (pp s) fi idx) (alloc_index s) (pcap s) (Z.to_nat (pcap s - (zlen (live s) - 1)))
+                 = seg s ++ [idx]).
+  { replace (Z.to_nat (pcap s - (zlen (live s) - 1))) with (S (Z.to_nat F)) by (unfold F, nfree; lia).
+    rewrite seg_of_snoc. rewrite Z2Nat.id by lia. rewrite <- Efi.
+    rewrite znth_zset_eq by lia. f_equal.
+    unfold seg. fold F. apply seg_of_zset_other; try lia. rewrite Z2Nat.id by lia. exact Efi. }
+  assert (Hnotseg : ~ In idx (seg s)).
+  { intro H. apply inv_seg_free0 in H. eapply slot_used_excl; eauto. exists sl; auto. }
+  constructor; cbn [slots pp pcap alloc_index free_index live]; auto.
+  - now rewrite zset_zlen.
+  - now rewrite zset_zlen.
+  - rewrite Hlen. rewrite inv_fi0. rewrite u32_add_idem. f_equal. lia.
+  - lia.
+  - now apply remove_z_nodup.
+  - intros x. rewrite remove_z_in. destruct (Z.eq_dec idx x).
+    + subst x. rewrite slot_used_zset_eq by lia. simpl. split; [intros [_ H]; congruence | discriminate].
+    + rewrite slot_used_zset_neq by auto. rewrite <- inv_live_used0. split; [tauto | intros; split; auto].
+  - unfold seg, nfree. cbn [slots pp pcap alloc_index free_index live]. rewrite Hlen, Hseg.
+    apply NoDup_snoc; auto.
+  - intros x. unfold seg, nfree. cbn [slots pp pcap alloc_index free_index live]. rewrite Hlen, Hseg.
+    rewrite in_app_iff. simpl. destruct (Z.eq_dec idx x).
+    + subst x. rewrite slot_used_zset_eq by lia. simpl. tauto.
+    + rewrite slot_used_zset_neq by auto. rewrite <- inv_seg_free0. tauto.
+  - intros i Hi. destruct (Z.eq_dec fi i).
+    + subst i. rewrite znth_zset_eq by lia. lia.
+    + rewrite znth_zset_neq by auto. now apply inv_pp_range0.
+Qed.
+
+(* ---------------------------------------------------------------------- *)
+(* init (repaired code) and cursor preset                                  *)
+
+Lemma NoDup_map_inj_in : forall A B (f : A -> B) l,
+  (forall x y, In x l -> In y l -> f x = f y -> x = y) -> NoDup l -> NoDup (map f l).
+Proof.
+  induction l; simpl; intros; [constructor|]. inversion H0; subst. constructor.
+  - rewrite in_map_iff. intros (y & E & Hy). assert (a = y) by (apply H; auto). subst. contradiction.
+  - apply IHl; auto.
+Qed.
+
+Lemma ps_init_shape : forall req s, 0 <= req <= two31 -> ps_init req true = Some s ->
+  is_pow2_cap (pcap s) /\ (if req >? 0 then req else 1) <= pcap s /\
+  slots s = repeat free_slot (Z.to_nat (pcap s)) /\ pp s = map Z.of_nat (seq 0 (Z.to_nat (pcap s))) /\
+  alloc_index s = 0 /\ free_index s = 0 /\ live s = [].
+Proof.
+  intros req s Hr H. unfold ps_init, ps_init_gen in H. cbn [negb] in H. inversion H; subst; clear H.
+  cbn [slots pp pcap alloc_index free_index live].
+  set (c := if req >? 0 then req else 1).
+  assert (Hc : 1 <= c <= two31) by (unfold c; destruct (req >? 0) eqn:E; unfold two31 in *; lia).
+  destruct (next_pow_of_2_spec c Hc). repeat split; auto; lia.
+Qed.
+
+Lemma ps_preset_inv : forall s a, is_pow2_cap (pcap s) ->
+  slots s = repeat free_slot (Z.to_nat (pcap s)) -> pp s = map Z.of_nat (seq 0 (Z.to_nat (pcap s))) ->
+  live s = [] -> ps_inv (ps_preset s a).
+Proof.
+  intros s a Hcap Hs Hp Hl. pose proof (pow2_cap_pos _ Hcap) as Hc.
+  assert (Hzs : forall x b, slot_used (slots s) x b <-> (0 <= x < pcap s /\ b = false)).
+  { intros x b. rewrite Hs. split.
+    - intros (y & E & U). pose proof (zget_range _ _ _ _ E) as R. rewrite zlen_repeat in R.
+      rewrite zget_repeat in E by lia. inversion E; subst. simpl. split; [lia | reflexivity].
+    - intros [R ->]. exists free_slot. rewrite zget_repeat by lia. auto. }
+  assert (Hzp : forall i, 0 <= i < pcap s -> znth (pp s) i = i).
+  { intros. rewrite Hp. apply zget_nth. apply zget_map_seq. lia. }
+  assert (Hseg : seg (ps_preset s a) = map (fun j => (u32 a + Z.of_nat j) mod pcap s) (seq 0 (Z.to_nat (pcap s)))).
+  { unfold seg, nfree, seg_of, ps_preset. cbn [slots pp pcap alloc_index free_index live].
+    rewrite Hl. unfold zlen. simpl length. rewrite Z.sub_0_r. apply map_ext. intros j.
+    apply Hzp. apply Z.mod_pos_bound. lia. }
+  assert (N : NoDup (seg (ps_preset s a))).
+  { rewrite Hseg. apply NoDup_map_inj_in; [|apply seq_NoDup].
+    intros x y Hx Hy E. apply in_seq in Hx. apply in_seq in Hy.
+    apply ring_pos_inj in E; lia. }
+  assert (Fr : forall x, In x (seg (ps_preset s a)) <-> slot_used (slots s) x false).
+  { intros x. rewrite Hseg. rewrite Hzs. rewrite in_map_iff. split.
+    + intros (j & E & _). subst x. split; auto. apply Z.mod_pos_bound. lia.
+    + intros [R _]. exists (Z.to_nat ((x - u32 a) mod pcap s)).
+      pose proof (Z.mod_pos_bound (x - u32 a) (pcap s)) as B. split.
+      * rewrite Z2Nat.id by lia. rewrite Zplus_mod_idemp_r.
+        replace (u32 a + (x - u32 a)) with x by lia. apply Z.mod_small. lia.
+      * apply in_seq. lia. }
+  constructor; try exact N; try exact Fr; unfold ps_preset; cbn [slots pp pcap alloc_index free_index live]; auto.
+  - rewrite Hs. rewrite zlen_repeat. lia.
+  - rewrite Hp. unfold zlen. rewrite map_length, seq_length. lia.
+  - apply u32_range.
+  - rewrite Hl. unfold zlen. simpl length. rewrite Z.sub_0_r. unfold u32. now rewrite Zmod_mod.
+  - rewrite Hl. unfold zlen. simpl. lia.
+  - rewrite Hl. constructor.
+  - intros x. rewrite Hl. rewrite Hzs. simpl. split; [contradiction | intros [_ H]; discriminate].
+  - intros i Hi. rewrite Hzp by auto. lia.
+Qed.
+
+Lemma ps_init_inv : forall req s a, 0 <= req <= two31 -> ps_init req true = Some s ->
+  ps_inv s /\ ps_inv (ps_preset s a).
+Proof.
+  intros req s a Hr H. destruct (ps_init_shape req s Hr H) as (Hc & _ & Hs & Hp & Ha & Hf & Hl).
+  split; [|now apply ps_preset_inv].
+  assert (E : s = ps_preset s 0).
+  { destruct s as [x1 x2 x3 x4 x5 x6]. unfold ps_preset. simpl in Ha, Hf. subst. reflexivity. }
+  rewrite E. now apply ps_preset_inv.
+Qed.
+
+(* ---------------------------------------------------------------------- *)
+(* the pointer slot refines its sequential reference: an association list   *)
+(* (index, pointer) in insertion order                                      *)
+
+Fixpoint lookup (i : Z) (m : list (Z * Z)) : option Z :=
+  match m with
+  | [] => None
+  | (k, d) :: r => if k =? i then Some d else lookup i r
+  end.
+
+Definition del_key (i : Z) (m : list (Z * Z)) : list (Z * Z) := filter (fun p => negb (fst p =? i)) m.
+
+(* what the reference allows as the outcome of one operation on a slot of capacity C *)
+Definition spec_ok (C : Z) (m : list (Z * Z)) (o : ps_op) (r : ps_res) (m' : list (Z * Z)) : Prop :=
+  match o, r with
+  | PIns d, RIns PFull _ => zlen m = C /\ m' = m
+  | PIns d, RIns POk i => zlen m < C /\ 0 <= i < C /\ ~ In i (map fst m) /\ m' = m ++ [(i, d)]
+  | PRem i, RRem PRange => C <= i /\ m' = m
+  | PRem i, RRem PDup => i < C /\ ~ In i (map fst m) /\ m' = m
+  | PRem i, RRem POk => i < C /\ In i (map fst m) /\ m' = del_key i m
+  | PGet i, RGet d => m' = m /\ d = match lookup i m with Some x => x | None => 0 end
+  | _, _ => False
+  end.
+
+Definition op_ok (o : ps_op) : Prop :=
+  match o with PIns _ => True | PRem i | PGet i => 0 <= i < two32 end.
+
+Definition slot_data (sl : list slot) (sid : Z) : Z :=
+  match zget sl sid with Some x => sdata x | None => 0 end.
+
+Lemma ps_iter_eq : forall s, ps_iter s = map (fun sid => (sid, slot_data (slots s) sid)) (live s).
+Proof. reflexivity. Qed.
+
+Lemma ps_iter_keys : forall s, map fst (ps_iter s) = live s.
+Proof. intros. rewrite ps_iter_eq, map_map. simpl. apply map_id. Qed.
+
+Lemma ps_iter_zlen : forall s, zlen (ps_iter s) = zlen (live s).
+Proof. intros. unfold zlen. rewrite ps_iter_eq, map_length. reflexivity. Qed.
+
+Lemma lookup_map : forall (f : Z -> Z) l i, lookup i (map (fun x => (x, f x)) l) = if in_dec Z.eq_dec i l then Some (f i) else None.
+Proof.
+  induction l; simpl; intros; auto. destruct (a =? i) eqn:E.
+  - assert (a = i) by lia. subst. destruct (Z.eq_dec i i); [reflexivity | congruence].
+  - rewrite IHl. destruct (Z.eq_dec a i); [lia|]. destruct (in_dec Z.eq_dec i l); reflexivity.
+Qed.
+
+Lemma map_ext_zset : forall sl sid x l, ~ In sid l ->
+  map (fun k => (k, slot_data (zset sl sid x) k)) l = map (fun k => (k, slot_data sl k)) l.
+Proof.
+  intros. apply map_ext_in. intros k Hk. unfold slot_data. rewrite zget_zset_neq; auto.
+  intro; subst; contradiction.
+Qed.
+
+Lemma del_key_map : forall (f : Z -> Z) i l,
+  del_key i (map (fun k => (k, f k)) l) = map (fun k => (k, f k)) (remove_z i l).
+Proof.
+  induction l; simpl; auto. destruct (a =? i); simpl; [auto | now rewrite IHl].
+Qed.
+
+Theorem ps_step_refines : forall s o, ps_inv s -> op_ok o ->
+  exists s' r, ps_step s o = Some (s', r) /\ ps_inv s' /\ pcap s' = pcap s /\
+               spec_ok (pcap s) (ps_iter s) o r (ps_iter s').
+Proof.
+  intros s o I Hok. destruct o as [d | i | i]; cbn [ps_step op_ok] in *.
+  - destruct (ps_insert_spec s d I) as [[Hfull E] | (Hlt & s' & sid & E & I' & R & Hn & Hl & Hs & Hc)]; rewrite E.
+    + exists s. eexists. split; [reflexivity|]. split; auto. split; auto.
+      cbn [spec_ok]. now rewrite ps_iter_zlen.
+    + exists s'. eexists. split; [reflexivity|]. split; auto. split; auto.
+      cbn [spec_ok]. rewrite ps_iter_zlen, ps_iter_keys. split; [lia|]. split; [lia|]. split; auto.
+      rewrite !ps_iter_eq. rewrite Hl, Hs, map_app. simpl. f_equal.
+      * now apply map_ext_zset.
+      * unfold slot_data. destruct I. rewrite zget_zset_eq by lia. reflexivity.
+  - destruct (ps_remove_spec s i I) as [[R E] | [(R & Hn & E) | (R & Hin & s' & E & I' & Hl & Hs & Hc)]]; try lia; rewrite E.
+    + exists s. eexists. split; [reflexivity|]. split; auto. split; auto. cbn [spec_ok]. auto.
+    + exists s. eexists. split; [reflexivity|]. split; auto. split; auto. cbn [spec_ok]. now rewrite ps_iter_keys.
+    + exists s'. eexists. split; [reflexivity|]. split; auto. split; auto.
+      cbn [spec_ok]. rewrite ps_iter_keys. split; auto. split; auto.
+      rewrite !ps_iter_eq. rewrite Hl, Hs. rewrite del_key_map.
+      apply map_ext_zset. rewrite remove_z_in. tauto.
+  - exists s. unfold ps_get. pose proof I as I0. destruct I.
+    destruct (i >=? pcap s) eqn:R.
+    + eexists. split; [reflexivity|]. split; auto. split; auto. cbn [spec_ok]. split; auto.
+      rewrite ps_iter_eq, lookup_map. destruct (in_dec Z.eq_dec i (live s)) as [Hin | Hnin]; auto.
+      apply inv_live_used0 in Hin. apply slot_used_range in Hin. lia.
+    + destruct (zget_in_range _ (slots s) i) as [sl Hsl]; [lia|]. rewrite Hsl.
+      destruct (in_used sl) eqn:U; cbn [negb].
+      * eexists. split; [reflexivity|]. split; auto. split; auto.
+        cbn [spec_ok]. split; auto. rewrite ps_iter_eq, lookup_map.
+        destruct (in_dec Z.eq_dec i (live s)) as [Hin | Hnin].
+        -- unfold slot_data. now rewrite Hsl.
+        -- exfalso. apply Hnin. apply inv_live_used0. exists sl; auto.
+      * eexists. split; [reflexivity|]. split; auto. split; auto.
+        cbn [spec_ok]. split; auto. rewrite ps_iter_eq, lookup_map.
+        destruct (in_dec Z.eq_dec i (live s)) as [Hin | Hnin]; auto.
+        exfalso. apply inv_live_used0 in Hin. eapply slot_used_excl; eauto. exists sl; auto.
+Qed.
+
+(* ---------------------------------------------------------------------- *)
+(* histories                                                               *)
+
+Definition ref_next (m : list (Z * Z)) (o : ps_op) (r : ps_res) : list (Z * Z) :=
+  match o, r with
+  | PIns d, RIns POk i => m ++ [(i, d)]
+  | PRem i, RRem POk => del_key i m
+  | _, _ => m
+  end.
+
+Fixpoint ref_run (m : list (Z * Z)) (ops : list ps_op) (rs : list ps_res) : list (Z * Z) :=
+  match ops, rs with
+  | o :: ops', r :: rs' => ref_run (ref_next m o r) ops' rs'
+  | _, _ => m
+  end.
+
+Fixpoint spec_run_ok (C : Z) (m : list (Z * Z)) (ops : list ps_op) (rs : list ps_res) : Prop :=
+  match ops, rs with
+  | [], [] => True
+  | o :: ops', r :: rs' => spec_ok C m o r (ref_next m o r) /\ spec_run_ok C (ref_next m o r) ops' rs'
+  | _, _ => False
+  end.
+
+Lemma spec_ok_next : forall C m o r m', spec_ok C m o r m' -> m' = ref_next m o r.
+Proof.
+  intros C m o r m' H. destruct o, r; cbn in *; try contradiction; try destruct r; try tauto.
+Qed.
+
+Theorem ps_run_refines : forall ops s, ps_inv s -> Forall op_ok ops ->
+  exists s' rs, ps_run s ops = Some (s', rs) /\ ps_inv s' /\ pcap s' = pcap s /\
+                spec_run_ok (pcap s) (ps_iter s) ops rs /\ ps_iter s' = ref_run (ps_iter s) ops rs.
+Proof.
+  induction ops as [|o ops IH]; intros s I F.
+  - exists s, []. cbn. auto.
+  - inversion F; subst.
+    destruct (ps_step_refines s o I H1) as (s1 & r & E & I1 & C1 & S1).
+    destruct (IH s1 I1 H2) as (s2 & rs & E2 & I2 & C2 & S2 & R2).
+    exists s2, (r :: rs). cbn [ps_run]. rewrite E, E2.
+    pose proof (spec_ok_next _ _ _ _ _ S1) as N.
+    split; auto. split; auto. split; [congruence|]. cbn [spec_run_ok ref_run].
+    rewrite <- N. rewrite C1 in S2. auto.
+Qed.
+
+Lemma lookup_app_some : forall i m1 m2 d, lookup i m1 = Some d -> lookup i (m1 ++ m2) = Some d.
+Proof.
+  induction m1 as [|[k x] m1 IH]; simpl; intros; [discriminate|].
+  destruct (k =? i); auto.
+Qed.
+
+Lemma lookup_app_notin : forall i m1 m2, ~ In i (map fst m1) -> lookup i (m1 ++ m2) = lookup i m2.
+Proof.
+  induction m1 as [|[k x] m1 IH]; simpl; intros; auto.
+  destruct (k =? i) eqn:E; [exfalso; apply H; left; lia|]. apply IH. tauto.
+Qed.
+
+Lemma lookup_del_key_neq : forall i j m, i <> j -> lookup i (del_key j m) = lookup i m.
+Proof.
+  induction m as [|[k x] m IH]; simpl; intros; auto.
+  destruct (k =? j) eqn:E; simpl.
+  - destruct (k =? i) eqn:E2; [lia|]. auto.
+  - destruct (k =? i); auto.
+Qed.
+
+Lemma lookup_del_key_eq : forall i m, lookup i (del_key i m) = None.
+Proof.
+  induction m as [|[k x] m IH]; simpl; auto.
+  destruct (k =? i) eqn:E; simpl; auto. now rewrite E.
+Qed.
+
+Lemma lookup_some_in : forall i m d, lookup i m = Some d -> In i (map fst m).
+Proof.
+  induction m as [|[k x] m IH]; simpl; intros; [discriminate|].
+  destruct (k =? i) eqn:E; [left; lia | right; eauto].
+Qed.
+
+(* ps_get agrees with the reference map in every invariant state *)
+Lemma ps_get_lookup : forall s i, ps_inv s -> 0 <= i < two32 ->
+  ps_get s i = Some (match lookup i (ps_iter s) with Some x => x | None => 0 end).
+Proof.
+  intros s i I Hi. destruct (ps_step_refines s (PGet i) I Hi) as (s' & r & E & _ & _ & S).
+  cbn [ps_step] in E. destruct (ps_get s i) eqn:G; [|discriminate]. inversion E; subst.
+  cbn [spec_ok] in S. destruct S as [_ ->]. reflexivity.
+Qed.
+
+Lemma live_index_range : forall s i, ps_inv s -> In i (live s) -> 0 <= i < pcap s /\ 0 <= i < two32.
+Proof.
+  intros s i I H. pose proof (pow2_cap_pos _ (inv_cap s I)).
+  apply (inv_live_used s I) in H. apply slot_used_range in H. rewrite (inv_len_slots s I) in H.
+  unfold two31, two32 in *. lia.
+Qed.
+
+(* an index resolves to its pointer until it is removed *)
+Theorem ps_get_until_removed_run : forall ops s i d, ps_inv s -> Forall op_ok ops ->
+  lookup i (ps_iter s) = Some d -> ~ In (PRem i) ops ->
+  exists s' rs, ps_run s ops = Some (s', rs) /\ lookup i (ps_iter s') = Some d /\ ps_get s' i = Some d.
+Proof.
+  induction ops as [|o ops IH]; intros s i d I F L N.
+  - exists s, []. cbn [ps_run]. split; auto. split; auto.
+    assert (R : 0 <= i < two32).
+    { apply lookup_some_in in L. rewrite ps_iter_keys in L. now apply live_index_range in L. }
+    rewrite ps_get_lookup by auto. now rewrite L.
+  - inversion F; subst.
+    destruct (ps_step_refines s o I H1) as (s1 & r & E & I1 & C1 & S1).
+    assert (L1 : lookup i (ps_iter s1) = Some d).
+    { pose proof (spec_ok_next _ _ _ _ _ S1) as N1. rewrite N1.
+      destruct o as [d' | j | j], r as [p k | p | x]; cbn [ref_next]; auto; destruct p; auto.
+      - now apply lookup_app_some.
+      - rewrite lookup_del_key_neq; auto. intro; subst. apply N. now left. }
+    destruct (IH s1 i d I1 H2 L1) as (s2 & rs & E2 & L2 & G2). { intro. apply N. now right. }
+    exists s2, (r :: rs). cbn [ps_run]. rewrite E, E2. auto.
+Qed.
+
+Lemma ps_insert_then_get : forall s d s' i, ps_inv s -> ps_insert s d = Some (s', (POk, i)) ->
+  ~ In i (live s) /\ NoDup (live s') /\ 0 <= i < pcap s /\ lookup i (ps_iter s') = Some d /\ ps_get s' i = Some d.
+Proof.
+  intros s d s' i I E.
+  destruct (ps_step_refines s (PIns d) I) as (s1 & r & E1 & I1 & C1 & S1); [exact Logic.I|].
+  cbn [ps_step] in E1. rewrite E in E1. inversion E1; subst. cbn [spec_ok] in S1.
+  destruct S1 as (Hlt & R & Hn & Hm). rewrite ps_iter_keys in Hn.
+  assert (L : lookup i (ps_iter s1) = Some d).
+  { rewrite Hm. rewrite lookup_app_notin by (now rewrite ps_iter_keys). simpl. now rewrite Z.eqb_refl. }
+  split; auto. split; [apply (inv_live_nodup _ I1)|]. split; auto. split; auto.
+  pose proof (pow2_cap_pos _ (inv_cap s I)).
+  rewrite ps_get_lookup; auto. { now rewrite L. } unfold two31, two32 in *. lia.
+Qed.
+
+Lemma ps_remove_then_get : forall s i s', ps_inv s -> 0 <= i < two32 -> ps_remove s i = Some (s', POk) ->
+  ps_get s' i = Some 0 /\ ps_remove s' i = Some (s', PDup).
+Proof.
+  intros s i s' I Hi E.
+  destruct (ps_remove_spec s i I) as [[R E'] | [(R & Hn & E') | (R & Hin & s1 & E' & I1 & Hl & Hs & Hc)]];
+    try lia; rewrite E in E'; inversion E'; subst.
+  assert (Hn : ~ In i (live s1)) by (rewrite Hl, remove_z_in; tauto).
+  split.
+  - rewrite ps_get_lookup by auto. destruct (lookup i (ps_iter s1)) eqn:L; auto.
+    apply lookup_some_in in L. rewrite ps_iter_keys in L. contradiction.
+  - destruct (ps_remove_spec s1 i I1) as [[R1 E1] | [(R1 & Hn1 & E1) | (R1 & Hin1 & _)]]; try lia; auto.
+    contradiction.
+Qed.
+
+Lemma ps_full_refuses_lem : forall s d, ps_inv s ->
+  (zlen (live s) = pcap s -> ps_insert s d = Some (s, (PFull, -1))) /\
+  (zlen (live s) < pcap s -> exists s' i, ps_insert s d = Some (s', (POk, i))).
+Proof.
+  intros s d I. destruct (ps_insert_spec s d I) as [[Hf E] | (Hlt & s' & sid & E & _)]; split; intros; try lia; eauto.
+Qed.
+
+(* the invariant holds in every state reachable from init (+ optional cursor preset),
+   for every requested capacity; in particular no operation touches memory
+   outside slots[] / pp_slots[] (ps_run never yields None) *)
+Theorem ps_reachable : forall req a s0 ops, 0 <= req <= two31 -> ps_init req true = Some s0 ->
+  Forall op_ok ops ->
+  exists s' rs, ps_run (ps_preset s0 a) ops = Some (s', rs) /\ ps_inv s' /\
+                ps_iter s' = ref_run [] ops rs /\ spec_run_ok (pcap s0) [] ops rs.
+Proof.
+  intros req a s0 ops Hr H F. destruct (ps_init_inv req s0 a Hr H) as [_ I].
+  destruct (ps_run_refines ops _ I F) as (s' & rs & E & I' & C & S & R).
+  exists s', rs. split; auto. split; auto.
+  destruct (ps_init_shape req s0 Hr H) as (_ & _ & _ & _ & _ & _ & Hl).
+  assert (Em : ps_iter (ps_preset s0 a) = []) by (rewrite ps_iter_eq; unfold ps_preset; cbn [live]; now rewrite Hl).
+  rewrite Em in *. auto.
+Qed.
+
+Lemma ps_inv_ring : forall s, ps_inv s ->
+  NoDup (seg s) /\ (forall sid, In sid (seg s) <-> slot_used (slots s) sid false) /\
+  zlen (seg s) + zlen (live s) = pcap s /\
+  free_index s = u32 (alloc_index s - zlen (live s)) /\
+  free_index s mod pcap s = (alloc_index s + zlen (seg s)) mod pcap s /\
+  NoDup (live s) /\ (forall sid, In sid (live s) <-> slot_used (slots s) sid true) /\
+  zlen (slots s) = pcap s /\ zlen (pp s) = pcap s.
+Proof.
+  intros s I. pose proof (zlen_nonneg _ (live s)).
+  assert (L : zlen (seg s) = pcap s - zlen (live s)).
+  { unfold seg, seg_of, zlen. rewrite map_length, seq_length. unfold nfree. fold (zlen (live s)).
+    pose proof (inv_nlive s I). lia. }
+  destruct I.
+  split; auto. split; auto. split; [lia|]. split; auto. split; [|auto].
+  rewrite inv_fi0, L. rewrite mod_u32_mod by auto.
+  replace (alloc_index s + (pcap s - zlen (live s))) with (alloc_index s - zlen (live s) + 1 * pcap s) by lia.
+  now rewrite Z_mod_plus_full.
+Qed.
